@@ -8,13 +8,13 @@
 (***************************************************************************)
 EXTENDS Integers, Sequences, FiniteSets, TraceBase
 
-CONSTANTS N, Procs, RelaxEmpty, Prefill
+CONSTANTS N, Procs, RelaxEmpty, Prefill, Mode
 
 VARIABLES cands, pend, cur
 vars == <<cands, pend, cur>>
 tvars == <<vars, l, bad>>
 
-LQ == INSTANCE LinQueue WITH LqThreads <- Procs, LqCap <- N, LqRelaxEmpty <- RelaxEmpty
+LQ == INSTANCE LinQueue WITH LqThreads <- Procs, LqCap <- N, LqRelaxEmpty <- RelaxEmpty, LqMode <- Mode
 
 Cands0 == IF Prefill THEN {[q |-> [i \in 1..N |-> i - 1], done |-> [t \in Procs |-> LQ!NotYet]]} ELSE LQ!LqInit0
 NoCur == [p \in Procs |-> "none"]
@@ -26,7 +26,7 @@ OpName(x) == IF x \in {"alloc", "pop", "dequeue", "poll"} THEN "deq"
 
 TReset == Ev.k = "reset" /\ cands' = Cands0 /\ pend' = LQ!LqNoPend /\ cur' = NoCur
 
-TCall == /\ Ev.k = "call"
+TCall == /\ Ev.k = "call" /\ ~IsNopCall
          /\ LET o == OpName(Ev.x.op) IN
             IF o \in {"enq", "deq"}
             THEN /\ cands' = LQ!LqCall(cands, pend, P, [op |-> o, v |-> Ev.x.v], 0)
@@ -34,7 +34,7 @@ TCall == /\ Ev.k = "call"
                  /\ cur' = [cur EXCEPT ![P] = o]
             ELSE UNCHANGED vars
 
-TRet == /\ Ev.k = "ret"
+TRet == /\ Ev.k = "ret" /\ ~IsNopRet
         /\ IF cur[P] = "enq"
            THEN /\ cands' = LQ!LqRet(cands, pend, P, [ok |-> Ev.x.ok, v |-> 0], 0)
                 /\ pend' = [pend EXCEPT ![P] = LQ!NoOp]
@@ -46,12 +46,13 @@ TRet == /\ Ev.k = "ret"
            ELSE UNCHANGED vars
 
 \* a thread that panicked never returns: its operation stays pending
+Stutter == UNCHANGED vars
 TOther == Ev.k \notin {"reset", "call", "ret", "final"} /\ UNCHANGED vars
 
 AllIdle == \A p \in Procs : cur[p] = "none"
 TFinal == /\ Ev.k = "final"
           /\ UNCHANGED <<pend, cur>>
-          /\ cands' = IF AllIdle /\ ~Ev.x.hard THEN {c \in cands : c.q = SeqOf(Ev.x.drained)} ELSE cands
+          /\ cands' = IF AllIdle /\ ~Ev.x.hard THEN {c \in cands : LQ!LqAgrees({c}, SeqOf(Ev.x.drained))} ELSE cands
 
 BadOf == IF cands = {} THEN "InvLinearizable" ELSE ""
 
@@ -59,8 +60,8 @@ TraceNext == /\ l <= Len(Rec)
              /\ l' = l + 1
              /\ IF Skipping
                 THEN UNCHANGED <<vars, bad>>
-                ELSE /\ (TReset \/ TCall \/ TRet \/ TOther \/ TFinal)
-                     /\ bad' = BadOf'
+                ELSE /\ (((IsNopCall \/ IsNopRet) /\ Stutter) \/ TReset \/ TCall \/ TRet \/ TOther \/ TFinal)
+                     /\ bad' = Worst(EvBad, BadOf')
                      /\ NoteBad(bad')
 
 TraceSpec == TraceInit /\ [][TraceNext]_tvars
